@@ -43,7 +43,14 @@ def depth2_family(ctx):
     """Depth-2 compositions; the quick tier uses a sub-alphabet, the thorough tier all of it."""
     if ctx.thorough:
         return E.depth2_programs()
-    inner = ["add", "mul", "floordiv", "lt", "eq", "and", "rshift"]
-    outer = ["sub", "mul", "truediv", "mod", "le", "ne", "xor", "lshift", "pow"]
-    progs = E.depth2_programs(inner, outer)
-    return progs
+    # quick: every operator occurs as the inner operation (its result - also its error-path result -
+    # is consumed by a second call) and as the outer one, but not every pair
+    progs = E.depth2_programs(None, ["mul", "eq", "lt", "truediv", "xor"]) + \
+        E.depth2_programs(["add", "mul", "floordiv", "lt", "eq", "and", "rshift"], ["sub", "mod", "le", "ne", "lshift", "pow"])
+    seen, out = set(), []
+    for pr in progs:
+        k = (pr["expr"], tuple(pr["kinds"]))
+        if k not in seen:
+            seen.add(k)
+            out.append(pr)
+    return out
